@@ -12,10 +12,15 @@ for sid in ids:
                        env=dict(os.environ, VERIF_NOMIN="1"))
     det = []
     cur = None
+    if "patch does not apply" in p.stdout or "repo not clean" in p.stdout or "Traceback" in p.stderr:
+        print(sid, "-> ERROR (not run):", (p.stdout + p.stderr)[-200:].replace("\n", " "), flush=True)
+        continue
     for line in p.stdout.splitlines():
         line = line.strip()
         if line in checks:
             cur = line
+        if line.startswith("rc=") and line not in ("rc=0", "rc=1"):
+            print(sid, "-> ERROR (check exited with %s)" % line, flush=True)
         if line.startswith("VIOLATION") and cur:
             det.append(cur + (" (no-failing-input-found)" if line.endswith("no-failing-input-found") else ""))
     meta["detected_by"] = det
